@@ -1175,6 +1175,22 @@ class Walker:
                     if lb is not None and lb >= 1:
                         enum_bound = (0, lb - 1)
             iters = self.r.len_bound(it, env, self.seq)
+            comp_bounds = {0: enum_bound} if enum_bound else {}
+            if H.is_mcall(ie) and H.mcall(ie)["name"] == "zip" and len(H.mcall(ie)["args"]) == 1 and iters is not None and iters >= 1:
+                # `(start..).zip(v)` / `v.zip(a..b)`: a component that comes from an integer range counts up from its start, once per
+                # iteration - and there are at most `iters` iterations (the shorter side ends the zip)
+                for k_, side in enumerate((H.mcall(ie)["recv"], H.mcall(ie)["args"][0])):
+                    sd = H.strip(side)
+                    if H.tag(sd) == "struct" and sd[1].split("<")[0].endswith(("::RangeFrom", "::Range")):
+                        f_ = dict((a, b) for a, b in sd[2])
+                        st_ = self.r.rng(f_.get("start"), env, self.seq)
+                        if st_ is not None:
+                            hi_ = st_[1] + iters - 1
+                            if "end" in f_:
+                                en_ = self.r.rng(f_["end"], env, self.seq)
+                                if en_ is not None:
+                                    hi_ = min(hi_, max(en_[1] - 1, st_[0]))
+                            comp_bounds[k_] = (st_[0], hi_)
             inits = {}
             for nm in sorted(mutated_names(body)):
                 ups = self.updates_of(body, nm)
@@ -1213,8 +1229,8 @@ class Walker:
                     while H.tag(qq) in ("pref", "pderef"):
                         qq = qq[1]
                     if H.tag(qq) == "bind":
-                        if k == 0 and enum_bound:
-                            e2.set(qq[1], ("range", enum_bound[0], enum_bound[1]), self.seq)
+                        if comp_bounds.get(k):
+                            e2.set(qq[1], ("range", comp_bounds[k][0], comp_bounds[k][1]), self.seq)
                         else:
                             e2.set(qq[1], ("type", qq[4]), self.seq)
             self.walk(body, e2, loops + (n,))
